@@ -272,5 +272,161 @@ func TestC12(t *testing.T) {
 		}
 		return
 	}
-	rapid.Check(t, func(rt *rapid.T) { one(genCaseC12(rt)) })
+	rapid.Check(t, func(rt *rapid.T) {
+		one(genCaseC12(rt))
+		// every case is followed by one round of the input-object scenario
+		reqs := rapid.SliceOfN(rapid.SampledFrom(c12InputRequests), 2, 6).Draw(rt, "inputRequests")
+		n := rapid.SampledFrom([]int{2, 4, 8, 16}).Draw(rt, "inputGoroutines")
+		for _, p := range c12InputRound(reqs, n) {
+			run.Case(hx.Hash(map[string]interface{}{"r": reqs, "n": n}), true, "input-objects-bound-to-go-types")
+			t.Fatalf("C12 violated: %s", run.ReportFailure(map[string]interface{}{"requests": reqs, "goroutines": n}, []hx.Discrepancy{{Kind: "not-isolated", Detail: p}}))
+		}
+		run.Case(hx.Hash(map[string]interface{}{"r": reqs, "n": n}), true, "input-objects-bound-to-go-types")
+	})
+}
+
+// ---- second scenario: input objects bound to Go types, defaults that are lists and objects -------
+
+const c12InputSDL = `
+input Range { lo: Int hi: Int = 10 }
+input Filter { tags: [String!] = ["a", "b"] range: Range = {lo: 5} ranges: [Range!] = [{lo: 1}, {hi: 2}] n: Int = 3 name: String }
+input Plain { tags: [String!] = ["p"] range: Range = {lo: 7} }
+type Query { find(f: Filter): String plain(p: Plain = {}): String both(f: Filter = {name: "d"}, p: Plain): String }
+`
+
+type c12Range struct {
+	Lo int32
+	Hi int32
+}
+
+type c12Filter struct {
+	Tags   []string
+	Range  *c12Range
+	Ranges []*c12Range
+	N      int
+	Name   string
+}
+
+type c12InputRoot struct{}
+
+func (r *c12InputRoot) Resolve(field *ggql.Field, args map[string]interface{}) (interface{}, error) {
+	if field.Name == "query" {
+		return r, nil
+	}
+	show := func(v interface{}) string {
+		switch t := v.(type) {
+		case *c12Filter:
+			if t == nil {
+				return "nil"
+			}
+			s := fmt.Sprintf("Filter{tags:%v n:%d name:%q", t.Tags, t.N, t.Name)
+			if t.Range != nil {
+				s += fmt.Sprintf(" range:%+v", *t.Range)
+			}
+			for _, r := range t.Ranges {
+				if r != nil {
+					s += fmt.Sprintf(" r:%+v", *r)
+				}
+			}
+			return s + "}"
+		}
+		return hx.Show(hx.Norm(fromGoRanges(v)))
+	}
+	keys := make([]string, 0, len(args))
+	for k := range args {
+		keys = append(keys, k)
+	}
+	sort.Strings(keys)
+	out := field.Name
+	for _, k := range keys {
+		out += " " + k + "=" + show(args[k])
+	}
+	return out, nil
+}
+
+func fromGoRanges(v interface{}) interface{} {
+	switch t := v.(type) {
+	case *c12Range:
+		if t == nil {
+			return nil
+		}
+		return map[string]interface{}{"lo": t.Lo, "hi": t.Hi}
+	case map[string]interface{}:
+		out := map[string]interface{}{}
+		for k, e := range t {
+			out[k] = fromGoRanges(e)
+		}
+		return out
+	case []interface{}:
+		out := make([]interface{}, len(t))
+		for i, e := range t {
+			out[i] = fromGoRanges(e)
+		}
+		return out
+	}
+	return v
+}
+
+var c12InputRequests = []string{
+	`{find(f: {})}`, `{find(f: {n: 1})}`, `{find(f: {range: {lo: 1}})}`, `{find(f: {tags: ["x"], ranges: [{}]})}`, `{plain}`, `{plain(p: {})}`, `{plain(p: {range: {}})}`,
+	`{both(p: {})}`, `{both(f: {}, p: {tags: []})}`, `query($f: Filter = {}) {find(f: $f)}`, `query($p: Plain = {range: {hi: 1}}) {plain(p: $p)}`,
+	`{__type(name: "Filter") {inputFields {name defaultValue}}}`, `{__type(name: "Plain") {inputFields {name defaultValue}}}`,
+	`{__type(name: "Query") {fields {name args {name defaultValue}}}}`, `{a: find(f: {}) b: find(f: {name: "x"}) c: plain}`,
+}
+
+func newC12InputRoot() (*ggql.Root, error) {
+	root := ggql.NewRoot(&c12InputRoot{})
+	if err := root.ParseString(c12InputSDL); err != nil {
+		return nil, err
+	}
+	if err := root.RegisterType(&c12Filter{}, "Filter"); err != nil {
+		return nil, err
+	}
+	if err := root.RegisterType(&c12Range{}, "Range"); err != nil {
+		return nil, err
+	}
+	return root, nil
+}
+
+// c12InputRound answers the requests alone (each on a root of its own), then all of them from n
+// goroutines each on one cold root, and reports the first difference.
+func c12InputRound(reqs []string, n int) (problems []string) {
+	ggql.Sort = true
+	want := make([]string, len(reqs))
+	for i, rq := range reqs {
+		root, err := newC12InputRoot()
+		if err != nil {
+			return []string{"setup: " + err.Error()}
+		}
+		want[i] = hx.Show(hx.Norm(root.ResolveString(rq, "", nil)))
+	}
+	root, err := newC12InputRoot()
+	if err != nil {
+		return []string{"setup: " + err.Error()}
+	}
+	got := make([][]string, n)
+	var wg sync.WaitGroup
+	start := make(chan struct{})
+	for g := 0; g < n; g++ {
+		wg.Add(1)
+		go func(g int) {
+			defer wg.Done()
+			got[g] = make([]string, len(reqs))
+			<-start
+			for k := range reqs {
+				i := (k + g) % len(reqs)
+				got[g][i] = hx.Show(hx.Norm(root.ResolveString(reqs[i], "", nil)))
+			}
+		}(g)
+	}
+	close(start)
+	wg.Wait()
+	for g := range got {
+		for i := range reqs {
+			if got[g][i] != want[i] {
+				return []string{fmt.Sprintf("request %s answered differently under concurrency (%d goroutines, input objects bound to Go types):\n  alone:      %s\n  concurrent: %s", reqs[i], n, want[i], got[g][i])}
+			}
+		}
+	}
+	return nil
 }
